@@ -303,11 +303,15 @@ def rule_4(ctx):
         ctx.expect(not wrong, anchor, f'INFIX_OP_TO_FUNC[{op!r}]',
                    f'=A1{op}B1 does not compute A1 {op} B1 with the operands in written order: ' + '; '.join(wrong))
     for f, cells, want in (('=-A1', {'A1': V.num(7)}, -7), ('=-A1', {'A1': V.num(-2.5)}, 2.5), ('=--A1', {'A1': V.num(3)}, 3),
-                           ('=50%', {}, 0.5), ('=A1*50%', {'A1': V.num(8)}, 4.0)):
+                           ('=50%', {}, 0.5), ('=A1*50%', {'A1': V.num(8)}, 4.0),
+                           # a whole exponent however it is spelt or stored: float cell, quotient, percent, scientific literal
+                           ('=A1^B1', {'A1': V.num(-2), 'B1': V.num(2.0)}, 4), ('=(-2)^(4/2)', {}, 4), ('=-2^200%', {}, 4), ('=(-3)^2E0', {}, 9),
+                           ('=1-A1^(6/3)*2', {'A1': V.num(-3)}, -17), ('=A1^B1', {'A1': V.num(-2), 'B1': V.num(3.0)}, -8), ('=2^-2', {}, 0.25),
+                           ('=A1^B1', {'A1': V.num(2.0), 'B1': V.num(10)}, 1024), ('=10^20/10^19', {}, 10), ('=2^0.5*2^0.5', {}, 2.0000000000000004)):
         got = eval_formula(ctx, f, cells)
         val = got[1] if isinstance(got, tuple) and len(got) == 2 and got[0] == 'Number' else got
         ctx.expect(isinstance(val, (int, float)) and not isinstance(val, bool) and abs(val - want) < 1e-12, anchor,
-                   "PREFIX_OP_TO_FUNC['-']" if f.startswith('=-') else f'value of {f}',
+                   "PREFIX_OP_TO_FUNC['-']" if f in ('=-A1', '=--A1') else f'value of {f} with {sorted((k, x.f["value"]) for k, x in cells.items())}',
                    f'{f} with {[(k, V.norm(v)) for k, v in cells.items()]} evaluates to {got!r}, expected {want!r}')
     # the arithmetic special methods of the value classes: self (op) other, also with a numeric text / boolean / blank partner
     fm = ctx.mod('xlfunctions.func_xltypes')
@@ -465,7 +469,7 @@ def rule_9(ctx):
     full = getattr(ctx, 'tier', 'quick') == 'thorough'
     n = _tree_rows(ctx, P.paren_and_chain_rows(), lambda i: True)
     pairs = P.binary_pair_rows()
-    sample = [(g, want) for i, (f, want) in enumerate(pairs) if (not full and i % 7 == 0) for g in P.blank_variants(f)]
+    sample = [(g, want) for i, (f, want) in enumerate(pairs) if (full or i % 7 == 0) for g in P.blank_variants(f)]
     n += _tree_rows(ctx, sample, lambda i: False)
     ctx.floor(80, 'parenthesised / chained / spaced witnesses')
 
